@@ -3,8 +3,59 @@
    `calc ord cp n tbl sc t` evaluates the op tree t with fuel n, session symbols tbl and the
    lambda arguments sc; `compile` is op_t::compile; `parse`/`print` work on token lists.
    `ord` (hash-table order of balances) and `cp` (commodity display precision) are arbitrary. *)
-From LedgerV Require Import Base.Prelude Base.Round Model.Amount Model.Expr Proofs.ExprProofs.
+From LedgerV Require Import Base.Prelude Base.Round Model.Amount Model.Expr Proofs.ExprProofs Proofs.ParserProofs.
 Local Open Scope Z_scope.
+
+(* ---- the parser implements the documented precedence grammar ----
+   aexpr is the abstract syntax (literals, identifiers, unary - and !, the twelve binary
+   operators, ?:); `tree e` is the op tree the grammar assigns to e; `show_min e` writes e with
+   the fewest parentheses under: unary - ! > * / > + - > comparisons > & > | > ?:, binary
+   operators left-associative; `R 0 e ts` says ts is ANY admissible way of writing e (that
+   minimum, plus redundant parentheses anywhere, plus either token of an operator that has
+   two: `/` and `div`).  wfv: literals are amounts or booleans.  For all e, with enough fuel: *)
+Theorem parse_show_min : forall cp e,
+  wfv e -> exists n0, forall n, (n0 <= n)%nat -> parse cp n (show_min e) = Ok (Some (tree cp e)).
+Proof. exact parse_show_min_all. Qed.
+Print Assumptions parse_show_min.
+
+Theorem parentheses_override_and_are_harmless : forall cp e ts,
+  R 0 e ts -> wfv e ->
+  exists n0, forall n, (n0 <= n)%nat -> parse cp n ts = Ok (Some (tree cp e)).
+Proof. exact rendering_parses. Qed.
+Print Assumptions parentheses_override_and_are_harmless.
+
+(* the fuel is monotone: more fuel never changes a result *)
+Theorem parser_fuel_monotone : forall cp n ts r,
+  parse_value_expr cp n false ts = Ok r -> forall m, (n <= m)%nat -> parse_value_expr cp m false ts = Ok r.
+Proof. intros cp n ts r H m Hm. exact (mono_at cp 0 n m ts r H Hm). Qed.
+Print Assumptions parser_fuel_monotone.
+
+(* non-vacuity and the shape of the statement on an example: 1 - 2 - 3 * - x < 4 & ! y | z *)
+Example show_min_example :
+  let one := AVal (w_num 1) in let two := AVal (w_num 2) in let three := AVal (w_num 3) in
+  let e := ABin BOr (ABin BAnd (ABin BLt (ABin BSub (ABin BSub one two) (ABin BMul three (ANeg (AId [120]))))
+                                          (AVal (w_num 4)))
+                               (ANot (AId [121])))
+                    (AId [122]) in
+  wfv e /\
+  show_min e = [TVal (w_num 1); TMinus; TVal (w_num 2); TMinus; TVal (w_num 3); TStar; TMinus; TIdent [120];
+                TLess; TVal (w_num 4); TAnd; TExclam; TIdent [121]; TOr; TIdent [122]] /\
+  parse w_cp (parse_fuel (show_min e)) (show_min e) = Ok (Some (tree w_cp e)) /\
+  (* right-nested operands need their parentheses: 1 - (2 - 3) *)
+  show_min (ABin BSub one (ABin BSub two three)) =
+    [TVal (w_num 1); TMinus; TLParen; TVal (w_num 2); TMinus; TVal (w_num 3); TRParen].
+Proof.
+  intros one two three e. split.
+  { unfold e, one, two, three, w_num. cbn [wfv]. repeat split; discriminate. }
+  split; [vm_compute; reflexivity|]. split; vm_compute; reflexivity.
+Qed.
+
+(* ---- print_parse: op_t::print output parses back to the same tree, without ?: ---- *)
+Theorem print_parse_partial : forall cp e,
+  wfv e -> normal cp e -> tern_free e ->
+  exists n0, forall n, (n0 <= n)%nat -> parse cp n (print (tree cp e)) = Ok (Some (tree cp e)).
+Proof. exact print_parse_roundtrip. Qed.
+Print Assumptions print_parse_partial.
 
 (* ---- calc_spec: and/or short-circuit, ?: evaluates one branch, operators are value_t's ---- *)
 Theorem and_short_circuits : forall ord cp n tbl sc l r x,
@@ -89,7 +140,7 @@ Theorem print_parse_ternary_refuted :
     parse cp (parse_fuel (print t)) (print t) = Err EOther.
 Proof.
   destruct ternary_print_not_parsable as (t & H1 & _ & H3 & H4).
-  exists w_cp, w_ternary, t. eexists. repeat split; eassumption.
+  exists w_cp, w_ternary, t, (XV (w_num 3)). split; [exact H1|]. split; [exact H4|exact H3].
 Qed.
 Print Assumptions print_parse_ternary_refuted.
 
@@ -101,7 +152,7 @@ Theorem fold_constants_ternary_refuted :
   exists cp t v e, calc false cp 50 [] [] t = Ok v /\ eval false cp 50 [] t = Err e.
 Proof.
   destruct fold_breaks_ternary as (t & _ & H2 & H3).
-  exists w_cp, t. eexists. eexists. split; eassumption.
+  exists w_cp, t, (XV (w_num 2)), EOther. split; [exact H2|exact H3].
 Qed.
 Print Assumptions fold_constants_ternary_refuted.
 
@@ -115,6 +166,7 @@ Theorem print_parse_value_refuted :
     run false cp [] (map (relit_tok cp) (print t)) = Ok (Some v') /\ v <> v'.
 Proof.
   destruct reprinted_text_changes_value as (t & H1 & H2 & H3).
-  exists w_cp, w_dz, t. eexists. eexists. repeat split; try eassumption. discriminate.
+  exists w_cp, w_dz, t, (XV (VBool false)), (XV (VAmt (mkAmt 5 0 true None))).
+  split; [exact H1|]. split; [exact H2|]. split; [exact H3|discriminate].
 Qed.
 Print Assumptions print_parse_value_refuted.
